@@ -22,10 +22,10 @@ EXPLANATION = (
 
 def run(ctx: Ctx) -> None:
     ctx.assumptions |= {'A2', 'A3', 'A5'}
-    R.rule_inventory(ctx)
+    ctx.do(R.rule_inventory)
     for fam, _ in R.FAMILIES:
-        R.rule_S1_S6(ctx, fam)
-        R.rule_S2(ctx, fam)
-        R.rule_S3(ctx, fam)
-        R.rule_S5(ctx, fam)
-    R.rule_S8(ctx)
+        ctx.do(R.rule_S1_S6, fam)
+        ctx.do(R.rule_S2, fam)
+        ctx.do(R.rule_S3, fam)
+        ctx.do(R.rule_S5, fam)
+    ctx.do(R.rule_S8)
